@@ -97,8 +97,8 @@ class Default(TMGRStagingOutputComponent):
 
         for task,actionables in staging_tasks:
             try:
+                # `_handle_task` advances the task to its final state
                 self._handle_task(task, actionables)
-                self.advance(task, publish=True, push=True)
             except:
                 self._log.exception("staging error")
                 self.advance(task, rps.FAILED, publish=True, push=False)
